@@ -144,6 +144,11 @@ def check_rate(case, ctx):
     back_end_honoured(name, fname, ctx)
     ctx.label("example:" + name)
     ctx.label("wrapper:" + wrapper)
+    if wrapper == "cvxpy" and any(s in ("unbounded", "infeasible") for s in STATUS["all"]) and wc is None:
+        # a clean certificate that the model of a shipped example has no finite value inside its documented range
+        ctx.fail("no-value:%s" % name, "%s%r: the solver certifies the model %s inside the documented range (no value returned)"
+                 % (fname, kwargs, [s for s in STATUS["all"] if s != "optimal"][0]))
+        return
     if wrapper == "cvxpy" and any(s != "optimal" for s in STATUS["all"]):
         ctx.label("inconclusive:status")
         return
